@@ -46,10 +46,10 @@ std::vector<Sub> vh_subs() {
   std::vector<Sub> subs;
   Sub s;
   s.name = "threads";
-  s.fields = {{"k", 1, 16}, {"T", 2, 16}, {"calls", 1, 6}, {"mode", 0, 1}, {"seed", 0, INT64_MAX - 1}};
+  s.fields = {{"k", 1, 16}, {"T", 2, 16}, {"calls", 1, 6}, {"mode", 0, 1}, {"seed", 0, INT64_MAX - 1}, {"hot", -1, 33}};
   s.run = [](const Vals& v, Ctx& ctx) {
     int rc = 0;
-    std::string out = run_child({std::to_string(v[0]), std::to_string(v[1]), std::to_string(v[2]), std::to_string(v[3]), std::to_string(v[4])}, &rc);
+    std::string out = run_child({std::to_string(v[0]), std::to_string(v[1]), std::to_string(v[2]), std::to_string(v[3]), std::to_string(v[4]), std::to_string(v[5])}, &rc);
     ctx.notef("N=%llu, %lld threads x %lld calls, %s process", 1ull << v[0], (long long)v[1], (long long)v[2], v[3] ? "warmed-up" : "fresh");
     if (rc == 66 || out.find("ThreadSanitizer: data race") != std::string::npos) {
       size_t p = out.find("WARNING: ThreadSanitizer");
@@ -77,6 +77,7 @@ std::vector<Sub> vh_subs() {
     }
     ctx.nontrivial = shared;
     ctx.cls(v[3] ? "mode:warm" : "mode:fresh");
+    if (v[5] >= 0) ctx.cls(v[1] >= 9 ? "hot:every thread starts with the same entry point, T>=9" : "hot:every thread starts with the same entry point");
     ctx.cls("T:" + std::to_string(v[1] >= 8 ? 8 : v[1] >= 4 ? 4 : 2) + "+");
   };
   subs.push_back(s);
